@@ -89,6 +89,13 @@ def case_strategy(draw: Any) -> Dict[str, Any]:
                 "max_app_queue_size": draw(st.sampled_from([1, 2, 10, 10])),
                 "h11_pass_raw_headers": draw(st.booleans())},
     }
+    # what the application of the aborted request does: wait for its body, or end at once
+    # without a response. The second is known finding C06-3 on the trio worker (the server's
+    # answer and the application's failed 500 are both lost): excluded by construction and
+    # counted; the committed replay keeps reporting it
+    if case["tail"] in ("body_cut", "bad_chunk") and draw(st.integers(0, 3)) == 0:
+        case["adjusted_tail_app"] = "return"
+    case["tail_app"] = "wait"
     return avoid_known_deadlock(case)
 
 
@@ -309,11 +316,14 @@ def judge(case: Dict[str, Any], obs: Any) -> Dict[str, Any]:
             # answered by the server itself, which announces close and closes
             tokens = [] if tail_resp is None else [
                 t.strip().lower() for v in tail_resp.header(b"connection") for t in v.split(b",")]
-            if tail_resp is None or not 400 <= tail_resp.status < 500 or not tail_resp.complete:
-                raise Violation("aborted_message_not_answered", "request head cut short by the "
-                                "client's half-close: " + (
+            # (an application that ends at once without responding may get its 500 out first)
+            top = 600 if case.get("tail_app") == "return" else 500
+            if tail_resp is None or not 400 <= tail_resp.status < top or not tail_resp.complete:
+                raise Violation("aborted_message_not_answered", "request cut short / broken by "
+                                "the client: " + (
                                     "no response" if tail_resp is None else
-                                    f"{tail_resp.to_json()}"), backend=be)
+                                    f"{tail_resp.to_json()}"), backend=be,
+                                tail_app=case.get("tail_app", "wait"))
             if b"close" not in tokens or not conn.server_gone:
                 raise Violation("close_not_announced", f"answer to the aborted message: "
                                 f"{tail_resp.headers}; closed={conn.server_gone}", backend=be,
@@ -419,7 +429,7 @@ def run_case(case: Dict[str, Any]) -> CaseInfo:
     cfg = dict(case["cfg"])
     cfg["keep_alive_timeout"] = T_BIG
     programs = {f"/r{i}": app_program(i, r) for i, r in enumerate(case["requests"])}
-    programs["/tail"] = TAIL_PROGRAM
+    programs["/tail"] = TAIL_PROGRAM if case.get("tail_app", "wait") == "wait" else [["return"]]
 
     async def sc(env: Any) -> Any:
         return await scenario(env, case)
@@ -439,6 +449,8 @@ def run_case(case: Dict[str, Any]) -> CaseInfo:
         classes.append("expect100")
     if case.get("adjusted"):
         classes.append("adjusted:" + case["adjusted"])
+    if case.get("adjusted_tail_app"):
+        classes.append("adjusted:tail_application_returns_at_once")
     for r in reqs:
         classes.append("app=" + r["app"]["mode"])
     nontrivial = (len(reqs) >= 2 and case["seg"]["mode"] != "bytes"
